@@ -25,7 +25,7 @@ func (c04) ID() string { return "C04" }
 
 func (c04) Run(e *Env) {
 	e.ProbeDecl("negative-percentile", "empty-percentile-list", "histogram-limit-0", "histogram-malformed", "idle-flush-persisted-timer", "idle-flush-persisted-histogram", "non-finite-value", "series-expired",
-		"all-sub-metrics-disabled", "batch-size-1", "many-backends")
+		"all-sub-metrics-disabled", "batch-size-1", "batch-size-unlimited", "many-backends")
 	pool := []float64{90, 99, 50, 100, 1, 0, -90, -50, -100, -1, 75, -25}
 	var pcts []float64
 	for i, n := 0, e.Draw(5); i < n; i++ {
@@ -55,13 +55,19 @@ func (c04) Run(e *Env) {
 
 	fab, conns, cw := NewFabric(), NewConnSim(), NewCWSim()
 	var backends []*BuiltBackend
-	batch := []int{0, 1, 2, 21, 1000}[e.Draw(5)]
+	batch := []int{0, 1, 2, 21, 1000, math.MaxInt64}[e.Draw(6)]
 	if batch == 1 {
 		e.Probe("batch-size-1")
+	}
+	if batch == math.MaxInt64 {
+		e.Probe("batch-size-unlimited")
 	}
 	for _, k := range BackendKinds {
 		if e.Chance(1, 3) {
 			bb, err := BuildBackend(BackendSpec{Kind: k, BatchSize: batch, Compress: e.Bool(), Disabled: dis, MaxRequests: 2, FlushInterval: time.Second}, fab, conns, cw)
+			if err != nil && batch == math.MaxInt64 {
+				continue // a configuration this backend does not accept
+			}
 			if err != nil {
 				e.Failf("C04/harness", "BuildBackend(%s): %v", k, err)
 			}
